@@ -71,3 +71,55 @@ Proof. intros d d' s e H _. apply find_lit_from_app. exact H. Qed.
 
 Theorem lit_stable p rs : stable unit record (to_split rs (regex_scan (find_lit p))).
 Proof. apply regex_stable; [exact (find_lit_bounds p)|exact (lit_match_final p)]. Qed.
+
+(* ---------- RS assigned while a regexSplitter is active ---------- *)
+
+Section Sched.
+  Variable rs_at : nat -> bytes.
+  Variable find_at : nat -> bytes -> option (Z * Z).
+  Hypothesis find_bounds : forall n d s e, find_at n d = Some (s, e) -> 0 <= s /\ s <= e /\ e <= zlen d.
+
+  Let sp := regex_split_sched rs_at find_at.
+
+  Lemma sched_unit n d e :
+    sp n d e = match to_split (rs_at n) (regex_scan (find_at n)) tt d e with
+               | SOk adv tok _ => SOk adv tok (match tok with Some _ => S n | None => n end)
+               | SPanic => SPanic
+               end.
+  Proof.
+    unfold sp, regex_split_sched, to_split.
+    destruct (regex_scan (find_at n) d e) as [[[adv tok] rtw]| | |]; try reflexivity.
+    destruct tok; reflexivity.
+  Qed.
+
+  Lemma sched_wb : wb nat record sp.
+  Proof.
+    split.
+    - intros n d e. rewrite sched_unit.
+      destruct (wb_ok _ _ _ (regex_wb (find_at n) (rs_at n) (find_bounds n)) tt d e)
+        as (adv & tok & st' & Hs & Hb & Hp).
+      rewrite Hs. eexists _, _, _. split; [reflexivity|]. split; [exact Hb|exact Hp].
+    - intros n. rewrite sched_unit.
+      rewrite (wb_empty _ _ _ (regex_wb (find_at n) (rs_at n) (find_bounds n)) tt). reflexivity.
+  Qed.
+
+  Lemma sched_stable : (forall n, match_final (find_at n)) -> stable nat record sp.
+  Proof.
+    intros MF. apply stable_simple; [exact sched_wb| |].
+    - intros n d adv t st' Hs d'. rewrite sched_unit in Hs. rewrite sched_unit.
+      destruct (find_cases (find_at n) d) as [(s & en & Hf & Hne)|Hf].
+      + rewrite (regex_found (find_at n) (rs_at n) (find_bounds n) tt d false s en Hf Hne) in Hs.
+        injection Hs as <- <- <-.
+        destruct (find_bounds _ _ _ _ Hf) as (H1 & H2 & H3).
+        rewrite (regex_found (find_at n) (rs_at n) (find_bounds n) tt (d ++ d') true s en
+                   (MF n _ _ _ _ Hf Hne) Hne).
+        rewrite ztake_app_le by lia. rewrite zdrop_app_le by lia.
+        rewrite ztake_app_le; [reflexivity|]. rewrite zlen_zdrop by lia. lia.
+      + rewrite (regex_nomatch (find_at n) (rs_at n) tt d false Hf) in Hs. cbn [andb] in Hs. discriminate.
+    - intros n d adv st' Hs. rewrite sched_unit in Hs.
+      destruct (find_cases (find_at n) d) as [(s & en & Hf & Hne)|Hf].
+      + rewrite (regex_found (find_at n) (rs_at n) (find_bounds n) tt d false s en Hf Hne) in Hs. discriminate.
+      + rewrite (regex_nomatch (find_at n) (rs_at n) tt d false Hf) in Hs. cbn [andb] in Hs.
+        injection Hs as <- <-. split; reflexivity.
+  Qed.
+End Sched.
